@@ -97,3 +97,9 @@ claim('C17', 'evaluation of the Cython kernels (read through Cython\'s parser) o
       'all derived caches cleared on every solve and lazily recomputed; nearest-angle matching with theta_max rejection and duplicate resolution; slip vector summed over exactly the atom\'s own neighbours with the reference cell, for unequal coordination; '
       'disregistry taken from the two layers adjoining planepos·n for any plane normal, through the final box; differential displacement for the same (atom, neighbours); displacement box/periodicity pairing. '
       'Numerical recovery of an imposed deformation by least squares over neighbour shells is not decided.', 'DESIGN.md §6 C17')
+
+claim('C14', 'exact rational algebra on the plane-normal table (26 zero/sign patterns) with sibling comparison; guard rules on the candidate searches; recording-stub evaluation of FreeSurface.__init__/surface and of the stacking-fault setters and fault() on model cells',
+      'Decides structural necessary conditions: the two starting in-plane lattice vectors obey the zone law, are integer and give a normal along +g, identically to tools/miller; in-plane / shortest / angle-below-90 / right-handed / non-parallel search guards, gcd reduction, cyclic cutboxvector arms; '
+      'the cut-axis refusals for each in-plane vector separately, termination shifts exactly midway between consecutive atomic planes (one per plane, along the cut only), surface() ordering supersize -> shift -> wrap -> non-periodic across the cut, vacuum geometry, minwidth/even; '
+      'fault-position setters mutually inverse incl. the box origin with one strict mask, fault() on a copy moving exactly the atoms above by a1·a1 + a2·a2 + out·n then wrapping, out-of-plane shift vectors refused by both setters. '
+      'That the rotated cell contains the same crystal (System.rotate, C04) and concrete cell geometry are not decided.', 'DESIGN.md §6 C14')
